@@ -1107,3 +1107,41 @@ def headerguard(repo):
     res.samples = [f"{f.name}: guard computed from the whole `{param}`"]
     res.analysed = [HG]
     return res
+
+
+# ---------------------------------------------------------------------------------------------------------
+def aliasctor(repo):
+    """R-ALIASCTOR (C07): an alias field's accessor returns `decltype(this-><target>)()` when the alias is absent, i.e.
+    it default-constructs the target's view type.  Physical field views are default-constructible; the view class
+    generated for a computed virtual field declares its default constructor deleted.  write_inference makes `let b = a`
+    an alias whatever `a` is, so an alias of a computed virtual field (`let a = x + 1`, or `let a = x` with `[requires]`)
+    yields a header that does not compile.  Decided from the two templates and the alias branch of _add_write_method."""
+    res = RuleResult("R-ALIASCTOR")
+    tp = Templates(repo)
+    need = ("structure_single_field_indirect_method_declarations", "structure_single_virtual_field_method_declarations")
+    for n in need:
+        if n not in tp:
+            raise AnalysisError(f"template {n} vanished")
+    alias_t = re.sub(r"//[^\n]*", "", tp[need[0]]["text"])
+    virt_t = re.sub(r"//[^\n]*", "", tp[need[1]]["text"])
+    default_constructs = bool(re.search(r"decltype\s*\(\s*this\s*->\s*\$\{aliased_field\}\s*\)\s*\(\s*\)", alias_t))
+    deleted = bool(re.search(r"\$\{virtual_view_type_name\}\s*\(\s*\)\s*=\s*delete", virt_t))
+    wi = repo.mod("compiler/front_end/write_inference.py")
+    f = next((g for g in wi.top_funcs() if any(isinstance(n, ast.Call) and isinstance(n.func, ast.Attribute) and n.func.attr == "CopyFrom"
+                                              and ast.unparse(n.func.value).endswith("write_method.alias") for n in walk_no_nested_funcs(g.node))), None)
+    if f is None:
+        raise AnalysisError("write_inference: alias assignment not found")
+    # does the alias path look at whether the *referenced* field is virtual?
+    ref_names = {n.targets[0].id for n in walk_no_nested_funcs(f.node) if isinstance(n, ast.Assign) and isinstance(n.targets[0], ast.Name)
+                 and isinstance(n.value, ast.Call) and (call_name(n.value) or "").endswith("find_object")}
+    excludes_virtual_target = any(isinstance(n, ast.Call) and (call_name(n) or "").endswith("field_is_virtual") and n.args
+                                  and isinstance(n.args[0], ast.Name) and n.args[0].id in ref_names for n in walk_no_nested_funcs(f.node))
+    res.instances += 3
+    if default_constructs and deleted and not excludes_virtual_target:
+        res.add(f"{TEMPLATES}|{need[0]}|default-constructs-virtual-view", "the alias accessor default-constructs the aliased field's view type, "
+                "virtual view classes delete their default constructor, and _add_write_method aliases virtual targets too: "
+                "`let a = x + 1` / `let b = a` is accepted and the header does not compile", TEMPLATES, tp[need[0]]["line"], need[0])
+    res.samples = [f"alias default-constructs target: {default_constructs}; virtual view default ctor deleted: {deleted}; "
+                   f"alias path excludes virtual targets: {excludes_virtual_target}"]
+    res.analysed = [TEMPLATES, wi.rel]
+    return res
